@@ -52,7 +52,13 @@ func genScript(r *rand.Rand, g *genCfg) Cmd {
 		}
 	}
 	wr := func(id string) []string {
-		switch r.Intn(4) {
+		switch r.Intn(7) {
+		case 4:
+			return []string{"SET", key, id, "EX", "1000", "POINT", g.lat(r), g.lon(r)}
+		case 5:
+			return []string{"EXPIRE", key, id, "1000"}
+		case 6:
+			return []string{"PERSIST", key, id}
 		case 0:
 			return []string{"SET", key, id, "STRING", fmt.Sprintf("s%d", g.uniq())}
 		case 1:
